@@ -1,1 +1,748 @@
-/-! # C05 — property theorems (not built yet) -/
+import RsMatterVerif.Lemmas.Acl
+/-!
+# C05 — access is granted exactly when the Matter access-control algorithm grants it
+
+`Acl.allow` etc. are the transliterated code (`Model/Acl.lean`, first half); `Acl.Granted`,
+`Acl.Reaches` are the specification written from the property text (second half of that file).
+Hypotheses used below:
+* `WF fabrics` — distinct fabric indices, every entry stamped with its fabric's index, distinct group
+  ids per fabric; `wf_*` show that the configuration operations of the API preserve it;
+* `CanonicalPrivs fabrics` — stored privileges are the five privileges of the cluster
+  (what `From<AccessControlEntryPrivilegeEnum>` produces);
+* `ReadOrWrite req` — the operation is `READ` or `WRITE` (what `check_attr_access`,
+  `check_cmd_access`, `check_event_access` pass).
+-/
+namespace C05
+open Acl
+
+/-- **C05, main theorem.** For every well-formed configuration and every read / write request,
+the access decision of the code is exactly the specification. -/
+theorem allow_iff_granted (fabrics : List Fabric) (req : AccessReq)
+    (hwf : WF fabrics) (hc : CanonicalPrivs fabrics) (hop : ReadOrWrite req) :
+    allow fabrics req = true ↔ Granted fabrics req := by
+  unfold allow fabricsAllow allowGroupcastAuxiliary Granted
+  by_cases hp : req.accessor.authMode = some AuthMode.pase
+  · simp [hp]
+  · have hp' : (req.accessor.authMode == some AuthMode.pase) = false := by simp [hp]
+    rw [hp']
+    simp only [Bool.false_eq_true, if_false, hp, false_or]
+    by_cases h0 : req.accessor.fabIdx = 0
+    · simp [h0]
+    · have h0' : (req.accessor.fabIdx == 0) = false := by simp [h0]
+      rw [h0']
+      simp only [Bool.false_eq_true, if_false]
+      cases hg : fabricsGet fabrics req.accessor.fabIdx with
+      | none =>
+        have hn := fabricsGet_none hg
+        simp only [Bool.or_eq_true]
+        constructor
+        · intro h
+          rcases h with h | h
+          · cases h
+          · split at h
+            · cases h
+            · split at h <;> cases h
+        · rintro ⟨f, hf, hi, _⟩; exact absurd hi (hn f hf)
+      | some f =>
+        obtain ⟨hf, hi⟩ := fabricsGet_some_mem hg
+        have hfa := fabricAllow_iff f req (hwf.stamped f hf) hi (hc f hf) hop
+        have haux := auxGranted_iff f req hop
+        constructor
+        · intro h
+          refine ⟨f, hf, hi, h0, ?_⟩
+          rcases (Bool.or_eq_true _ _).mp h with h | h
+          · exact Or.inl (hfa.mp h)
+          · right
+            apply haux.mp
+            by_cases ha : req.accessor.auxAclEnabled = true
+            · by_cases hm : req.accessor.authMode = some AuthMode.group
+              · simp [ha, hm] at h; exact ⟨ha, hm, h⟩
+              · simp [ha, hm] at h
+            · simp [ha] at h
+        · rintro ⟨f', hf', hi', _, h⟩
+          have : f' = f := nodup_idx_unique hwf.distinct hf' hf (hi'.trans hi.symm)
+          subst this
+          rcases h with h | h
+          · simp [hfa.mpr h]
+          · obtain ⟨ha, hm, hg⟩ := haux.mpr h
+            simp [ha, hm, hg]
+
+/-! ## the executable specification used by the driver -/
+
+theorem privOkB_iff (pb : Nat) (o : AccessDesc) : privOkB pb o = true ↔ PrivOk pb o := by
+  unfold privOkB PrivOk
+  cases h1 : o.targetPerms with
+  | none => simp
+  | some decl =>
+    cases h2 : opOfBits o.operation with
+    | none => simp
+    | some op =>
+      cases h3 : privOfBits pb with
+      | none => simp
+      | some p =>
+        cases h4 : requiredPriv decl op with
+        | none => simp [h4]
+        | some q => simp [h4]
+
+theorem auxRootExcludedB_iff (e : Entry) (req : AccessReq) :
+    auxRootExcludedB e req = true ↔ AuxRootExcluded e req := by
+  unfold auxRootExcludedB AuxRootExcluded
+  cases h : e.targets with
+  | none => simp [and_assoc]
+  | some ts => cases ts <;> simp [and_assoc]
+
+theorem entryGrantsB_iff (e : Entry) (req : AccessReq) : entryGrantsB e req = true ↔ EntryGrants e req := by
+  unfold entryGrantsB EntryGrants
+  simp only [Bool.and_eq_true, decide_eq_true_iff, subjectsOkB_iff, targetsOkB_iff, privOkB_iff,
+    Bool.not_eq_true', ← Bool.not_eq_true, auxRootExcludedB_iff, and_assoc]
+
+theorem auxGrantsB_iff (f : Fabric) (req : AccessReq) : auxGrantsB f req = true ↔ AuxGrants f req := by
+  unfold auxGrantsB AuxGrants
+  simp only [Bool.and_eq_true, decide_eq_true_iff, List.any_eq_true, subjectMatchB_iff, privOkB_iff, and_assoc]
+  refine and_congr Iff.rfl (and_congr Iff.rfl ?_)
+  constructor
+  · rintro ⟨g, hg, h1, h2, h3, h4⟩
+    refine ⟨g, hg, h1, ?_, h3, h4⟩
+    cases hep : req.object.path.endpoint with
+    | none => simp [hep] at h2
+    | some ep => simp [hep] at h2; exact ⟨ep, rfl, h2⟩
+  · rintro ⟨g, hg, h1, ⟨ep, hep, h2⟩, h3, h4⟩
+    refine ⟨g, hg, h1, ?_, h3, h4⟩
+    simp [hep, h2]
+
+/-- the executable specification the driver evaluates is the specification -/
+theorem grantedB_iff (fabrics : List Fabric) (req : AccessReq) :
+    grantedB fabrics req = true ↔ Granted fabrics req := by
+  unfold grantedB Granted
+  simp only [Bool.or_eq_true, Bool.and_eq_true, decide_eq_true_iff, List.any_eq_true, entryGrantsB_iff,
+    auxGrantsB_iff, and_assoc]
+
+theorem reachesB_iff (fabrics : List Fabric) (a : Accessor) (ep : Nat) :
+    reachesB fabrics a ep = true ↔ Reaches fabrics a ep := by
+  unfold reachesB Reaches
+  simp only [Bool.or_eq_true, Bool.and_eq_true, decide_eq_true_iff, List.any_eq_true,
+    List.contains_eq_mem, and_assoc]
+
+
+/-! ## `Access::is_ok` and the privilege lattice -/
+
+/-- `Access::is_ok(decl, op, p)` holds exactly when the declaration offers the operation and the
+entry's privilege includes the least privilege the declaration names for it. -/
+theorem is_ok_iff_level (decl : Nat) (op : Op) (p : Priv) :
+    isOk decl op.bits p.bits = true ↔
+      declOffers decl op = true ∧ ∃ q, requiredPriv decl op = some q ∧ p.includes q = true := by
+  rw [isOk_eq_spec]
+  unfold privSpecB
+  cases h : requiredPriv decl op with
+  | none => simp
+  | some q => simp
+
+theorem requiredPriv_ne_proxyView (decl : Nat) (op : Op) : requiredPriv decl op ≠ some Priv.proxyView := by
+  unfold requiredPriv
+  cases op <;> simp only <;> (repeat' split) <;> simp
+
+/-- an entry carrying ProxyView authorises no read and no write of any element -/
+theorem proxy_view_grants_nothing (decl : Nat) (op : Op) :
+    isOk decl op.bits Priv.proxyView.bits = false := by
+  rw [Bool.eq_false_iff]
+  intro h
+  obtain ⟨_, q, hq, hi⟩ := (is_ok_iff_level decl op Priv.proxyView).mp h
+  cases q <;> first | exact absurd hq (requiredPriv_ne_proxyView decl op) | cases hi
+
+/-! ## fabric separation -/
+
+/-- An entry stamped with another fabric's index matches no accessor (no hypotheses). -/
+theorem other_fabric_never_grants (e : Entry) (req : AccessReq) (aux : Bool)
+    (h : e.fabIdx ≠ some req.accessor.fabIdx) : entryAllow e req aux = false := by
+  unfold entryAllow matchAccessor
+  split
+  · rfl
+  · cases hf : e.fabIdx with
+    | none => simp
+    | some i =>
+      have : i ≠ req.accessor.fabIdx := fun hh => h (by rw [hf, hh])
+      simp [this]
+
+/-- The decision depends only on the fabric with the accessor's index: whatever other fabrics
+exist, whatever their entries say, the specification gives the same answer. -/
+theorem granted_depends_only_on_own_fabric (fabrics fabrics' : List Fabric) (req : AccessReq)
+    (h : ∀ f, f.fabIdx = req.accessor.fabIdx → (f ∈ fabrics ↔ f ∈ fabrics')) :
+    Granted fabrics req ↔ Granted fabrics' req := by
+  unfold Granted
+  refine or_congr Iff.rfl ?_
+  constructor
+  · rintro ⟨f, hf, hi, r⟩; exact ⟨f, (h f hi).mp hf, hi, r⟩
+  · rintro ⟨f, hf, hi, r⟩; exact ⟨f, (h f hi).mpr hf, hi, r⟩
+
+theorem allow_depends_only_on_own_fabric (fabrics fabrics' : List Fabric) (req : AccessReq)
+    (hwf : WF fabrics) (hc : CanonicalPrivs fabrics) (hwf' : WF fabrics') (hc' : CanonicalPrivs fabrics')
+    (hop : ReadOrWrite req)
+    (h : ∀ f, f.fabIdx = req.accessor.fabIdx → (f ∈ fabrics ↔ f ∈ fabrics')) :
+    allow fabrics req = allow fabrics' req := by
+  have := granted_depends_only_on_own_fabric fabrics fabrics' req h
+  rw [← allow_iff_granted fabrics req hwf hc hop, ← allow_iff_granted fabrics' req hwf' hc' hop] at this
+  cases h1 : allow fabrics req <;> cases h2 : allow fabrics' req <;> simp_all
+
+/-- an accessor whose fabric does not exist is denied (unless it is the PASE commissioner) -/
+theorem missing_fabric_denied (fabrics : List Fabric) (req : AccessReq)
+    (hm : ∀ f ∈ fabrics, f.fabIdx ≠ req.accessor.fabIdx)
+    (hp : req.accessor.authMode ≠ some AuthMode.pase) : allow fabrics req = false := by
+  have hg : fabricsGet fabrics req.accessor.fabIdx = none := by
+    unfold fabricsGet
+    rw [List.find?_eq_none]
+    intro f hf; simpa using hm f hf
+  unfold allow fabricsAllow allowGroupcastAuxiliary
+  simp only [hg]
+  have : (req.accessor.authMode == some AuthMode.pase) = false := by simp [hp]
+  simp [this]
+
+/-- fabric index 0 (no fabric) is denied unless the accessor is the PASE commissioner -/
+theorem fabric_zero_denied_unless_pase (fabrics : List Fabric) (req : AccessReq)
+    (h0 : req.accessor.fabIdx = 0) :
+    allow fabrics req = true ↔ req.accessor.authMode = some AuthMode.pase := by
+  unfold allow fabricsAllow allowGroupcastAuxiliary
+  by_cases hp : req.accessor.authMode = some AuthMode.pase
+  · simp [hp]
+  · have : (req.accessor.authMode == some AuthMode.pase) = false := by simp [hp]
+    simp [this, h0, hp]
+
+/-- the PASE commissioner is always granted -/
+theorem pase_always_granted (fabrics : List Fabric) (req : AccessReq)
+    (hp : req.accessor.authMode = some AuthMode.pase) : allow fabrics req = true := by
+  unfold allow fabricsAllow; simp [hp]
+
+/-! ## null = empty -/
+
+theorem empty_eq_null_subjects (e : Entry) (req : AccessReq) (aux : Bool) :
+    entryAllow { e with subjects := some [] } req aux = entryAllow { e with subjects := none } req aux := by
+  unfold entryAllow matchAccessor subjectsAllow matchAccessDesc targetsWildcard targetsAllow
+  simp
+
+theorem empty_eq_null_targets (e : Entry) (req : AccessReq) (aux : Bool) :
+    entryAllow { e with targets := some [] } req aux = entryAllow { e with targets := none } req aux := by
+  unfold entryAllow matchAccessor subjectsAllow matchAccessDesc targetsWildcard targetsAllow
+  simp
+
+
+/-! ## CAT version monotonicity -/
+
+/-- the accessor with tag `v` replaced by `v'` -/
+def withTag (a : Accessor) (v v' : Nat) : Accessor :=
+  { a with subjects := a.subjects.map (fun x => if x = v then v' else x) }
+
+theorem subjectMatch_mono (a : Accessor) (v v' s : Nat)
+    (hv : IsCat v) (hv' : IsCat v') (hid : catId v = catId v') (hver : catVersion v ≤ catVersion v')
+    (h : SubjectMatch a s) : SubjectMatch (withTag a v v') s := by
+  obtain ⟨x, hx, hx0, hm⟩ := h
+  have hv'0 : v' ≠ 0 := by
+    intro h0; rw [h0] at hv'; exact hv'.2 (by decide)
+  by_cases hxv : x = v
+  · subst hxv
+    refine ⟨v', ?_, hv'0, ?_⟩
+    · unfold withTag; simp only [List.mem_map]; exact ⟨x, hx, by simp⟩
+    · rcases hm with rfl | ⟨_, hs, hi, hle⟩
+      · by_cases he : v' = x
+        · exact Or.inl he
+        · exact Or.inr ⟨hv', hv, hid.symm, hver⟩
+      · exact Or.inr ⟨hv', hs, hid ▸ hi, Nat.le_trans hle hver⟩
+  · refine ⟨x, ?_, hx0, hm⟩
+    unfold withTag; simp only [List.mem_map]; exact ⟨x, hx, by simp [hxv]⟩
+
+/-- Raising the version of one of the accessor's tags (same identifier) never loses access:
+whatever the specification granted before is still granted. -/
+theorem cat_version_monotone_spec (fabrics : List Fabric) (req : AccessReq) (v v' : Nat)
+    (hv : IsCat v) (hv' : IsCat v') (hid : catId v = catId v') (hver : catVersion v ≤ catVersion v')
+    (h : Granted fabrics req) :
+    Granted fabrics { req with accessor := withTag req.accessor v v' } := by
+  rcases h with h | ⟨f, hf, hi, h0, h⟩
+  · exact Or.inl h
+  · refine Or.inr ⟨f, hf, hi, h0, ?_⟩
+    rcases h with ⟨e, he, hm, hs, ht, hp, hx⟩ | ⟨ha, hm, g, hg, h1, h2, h3, h4⟩
+    · refine Or.inl ⟨e, he, hm, ?_, ht, hp, hx⟩
+      rcases hs with hs | hs | ⟨ss, hss, s, hsm, hs⟩
+      · exact Or.inl hs
+      · exact Or.inr (Or.inl hs)
+      · exact Or.inr (Or.inr ⟨ss, hss, s, hsm, subjectMatch_mono _ v v' s hv hv' hid hver hs⟩)
+    · exact Or.inr ⟨ha, hm, g, hg, h1, h2, subjectMatch_mono _ v v' _ hv hv' hid hver h3, h4⟩
+
+theorem cat_version_monotone (fabrics : List Fabric) (req : AccessReq) (v v' : Nat)
+    (hwf : WF fabrics) (hc : CanonicalPrivs fabrics) (hop : ReadOrWrite req)
+    (hv : IsCat v) (hv' : IsCat v') (hid : catId v = catId v') (hver : catVersion v ≤ catVersion v')
+    (h : allow fabrics req = true) :
+    allow fabrics { req with accessor := withTag req.accessor v v' } = true := by
+  have hg := (allow_iff_granted fabrics req hwf hc hop).mp h
+  exact (allow_iff_granted fabrics { req with accessor := withTag req.accessor v v' } hwf hc hop).mpr
+    (cat_version_monotone_spec fabrics req v v' hv hv' hid hver hg)
+
+/-- a lower version than the entry asks for does not match that entry's tag -/
+theorem cat_lower_version_no_match (v s : Nat) (hne : v ≠ s) (hlt : catVersion v < catVersion s) :
+    slotMatches v s = false := by
+  rw [Bool.eq_false_iff, Ne, slotMatches_iff]
+  rintro ⟨_, h | ⟨_, _, _, hle⟩⟩
+  · exact hne h
+  · omega
+
+/-! ## group accessors -/
+
+theorem groupsGet_some_mem {gs : List GroupMapping} {i : Nat} {g : GroupMapping}
+    (h : groupsGet gs i = some g) : g ∈ gs ∧ g.groupId = i := by
+  unfold groupsGet at h
+  have h1 := List.mem_of_find?_eq_some h
+  have h2 := List.find?_some h
+  simp at h2
+  exact ⟨h1, h2⟩
+
+theorem nodup_gid_unique {gs : List GroupMapping} (hd : (gs.map (·.groupId)).Nodup)
+    {f g : GroupMapping} (hf : f ∈ gs) (hg : g ∈ gs) (h : f.groupId = g.groupId) : f = g := by
+  induction gs with
+  | nil => cases hf
+  | cons x xs ih =>
+    simp only [List.map_cons, List.nodup_cons, List.mem_map, not_exists, not_and] at hd
+    rcases List.mem_cons.mp hf with rfl | hf'
+    · rcases List.mem_cons.mp hg with rfl | hg'
+      · rfl
+      · exact absurd h.symm (hd.1 g hg')
+    · rcases List.mem_cons.mp hg with rfl | hg'
+      · exact absurd h (hd.1 f hf')
+      · exact ih hd.2 hf' hg'
+
+/-- "group accessors reach only endpoints that are members of their group" — and, for well-formed
+tables, exactly those. -/
+theorem group_reaches_only_member_endpoints (fabrics : List Fabric) (a : Accessor) (ep : Nat)
+    (hwf : WF fabrics) : isEndpointAccessible fabrics a ep = true ↔ Reaches fabrics a ep := by
+  unfold isEndpointAccessible Reaches
+  by_cases hm : a.authMode = some AuthMode.group
+  · have : (a.authMode != some AuthMode.group) = false := by simp [hm]
+    rw [this]
+    simp only [Bool.false_eq_true, if_false, hm, ne_eq, not_true_eq_false, false_or]
+    by_cases h0 : a.fabIdx = 0
+    · simp [h0]
+    · have h0' : (a.fabIdx == 0) = false := by simp [h0]
+      simp only [h0', Bool.false_eq_true, if_false]
+      cases hg : fabricsGet fabrics a.fabIdx with
+      | none =>
+        have hn := fabricsGet_none hg
+        constructor
+        · intro h; cases h
+        · rintro ⟨f, hf, hi, _⟩; exact absurd hi (hn f hf)
+      | some f =>
+        obtain ⟨hf, hi⟩ := fabricsGet_some_mem hg
+        simp only
+        cases hgg : groupsGet f.groups (a.subjects.headD 0 % 65536) with
+        | none =>
+          constructor
+          · intro h; cases h
+          · rintro ⟨f', hf', hi', _, g, hg', hgid, _⟩
+            have : f' = f := nodup_idx_unique hwf.distinct hf' hf (hi'.trans hi.symm)
+            subst this
+            unfold groupsGet at hgg
+            rw [List.find?_eq_none] at hgg
+            have := hgg g hg'
+            simp [hgid] at this
+        | some g =>
+          obtain ⟨hgm, hgid⟩ := groupsGet_some_mem hgg
+          simp only [List.contains_eq_mem, decide_eq_true_iff]
+          constructor
+          · intro h; exact ⟨f, hf, hi, h0, g, hgm, hgid, h⟩
+          · rintro ⟨f', hf', hi', _, g', hg', hgid', hep⟩
+            have : f' = f := nodup_idx_unique hwf.distinct hf' hf (hi'.trans hi.symm)
+            subst this
+            have : g' = g := nodup_gid_unique (hwf.groupsDistinct f' hf) hg' hgm (hgid'.trans hgid.symm)
+            subst this
+            exact hep
+  · have : (a.authMode != some AuthMode.group) = true := by simp [hm]
+    simp [this, hm]
+
+/-- the "only" direction needs no well-formedness at all -/
+theorem group_reach_implies_member (fabrics : List Fabric) (a : Accessor) (ep : Nat)
+    (hm : a.authMode = some AuthMode.group) (h : isEndpointAccessible fabrics a ep = true) :
+    ∃ f ∈ fabrics, f.fabIdx = a.fabIdx ∧ ∃ g ∈ f.groups,
+      g.groupId = (a.subjects.headD 0) % 65536 ∧ ep ∈ g.endpoints := by
+  unfold isEndpointAccessible at h
+  have : (a.authMode != some AuthMode.group) = false := by simp [hm]
+  simp only [this, Bool.false_eq_true, if_false] at h
+  split at h
+  · cases h
+  · cases hg : fabricsGet fabrics a.fabIdx with
+    | none => simp [hg] at h
+    | some f =>
+      obtain ⟨hf, hi⟩ := fabricsGet_some_mem hg
+      simp only [hg] at h
+      cases hgg : groupsGet f.groups (a.subjects.headD 0 % 65536) with
+      | none => rw [hgg] at h; cases h
+      | some g =>
+        obtain ⟨hgm, hgid⟩ := groupsGet_some_mem hgg
+        rw [hgg] at h
+        simp only [List.contains_eq_mem, decide_eq_true_iff] at h
+        exact ⟨f, hf, hi, g, hgm, hgid, h⟩
+
+
+/-! ## the configuration operations preserve well-formedness -/
+
+theorem wf_nil : WF [] := ⟨by simp, by simp, by simp⟩
+
+theorem foldl_max_ge (l : List Nat) (a : Nat) : a ≤ l.foldl max a ∧ ∀ x ∈ l, x ≤ l.foldl max a := by
+  induction l generalizing a with
+  | nil => simp
+  | cons y ys ih =>
+    simp only [List.foldl_cons, List.mem_cons]
+    obtain ⟨h1, h2⟩ := ih (max a y)
+    refine ⟨by omega, ?_⟩
+    rintro x (rfl | hx)
+    · omega
+    · exact h2 x hx
+
+theorem nextFabIdx_fresh {fabrics : List Fabric} {i : Nat} (h : nextFabIdx fabrics = some i) :
+    ∀ f ∈ fabrics, f.fabIdx ≠ i := by
+  unfold nextFabIdx at h
+  simp only at h
+  split at h
+  · injection h with h
+    intro f hf
+    have := (foldl_max_ge (fabrics.map (·.fabIdx)) 0).2 f.fabIdx (List.mem_map.mpr ⟨f, hf, rfl⟩)
+    omega
+  · have := List.find?_some h
+    simp only [List.all_eq_true, bne_iff_ne, ne_eq] at this
+    exact this
+
+theorem wf_fabricsAdd {fabrics fabrics' : List Fabric} {i : Nat} (hwf : WF fabrics)
+    (h : fabricsAdd fabrics = some (fabrics', i)) : WF fabrics' := by
+  unfold fabricsAdd at h
+  cases hn : nextFabIdx fabrics with
+  | none => simp [hn] at h
+  | some j =>
+    simp only [hn] at h
+    split at h
+    · injection h with h
+      injection h with h1 h2
+      subst h1
+      have hfresh := nextFabIdx_fresh hn
+      refine ⟨?_, ?_, ?_⟩
+      · rw [List.map_append, List.nodup_append]
+        refine ⟨hwf.distinct, by simp, ?_⟩
+        intro a ha b hb
+        simp only [List.map_cons, List.map_nil, List.mem_singleton] at hb
+        obtain ⟨f, hf, rfl⟩ := List.mem_map.mp ha
+        rw [hb]; exact hfresh f hf
+      · intro f hf
+        rcases List.mem_append.mp hf with hf | hf
+        · exact hwf.stamped f hf
+        · simp only [List.mem_singleton] at hf; subst hf; simp
+      · intro f hf
+        rcases List.mem_append.mp hf with hf | hf
+        · exact hwf.groupsDistinct f hf
+        · simp only [List.mem_singleton] at hf; subst hf; simp
+    · cases h
+
+theorem wf_fabricsRemove {fabrics fabrics' : List Fabric} {i : Nat} (hwf : WF fabrics)
+    (h : fabricsRemove fabrics i = some fabrics') : WF fabrics' := by
+  unfold fabricsRemove at h
+  split at h
+  · cases h
+  · injection h with h
+    subst h
+    refine ⟨?_, ?_, ?_⟩
+    · exact List.Nodup.sublist (List.Sublist.map _ List.filter_sublist) hwf.distinct
+    · intro f hf; exact hwf.stamped f (List.mem_filter.mp hf).1
+    · intro f hf; exact hwf.groupsDistinct f (List.mem_filter.mp hf).1
+
+theorem fabricsUpdate_map (fabrics : List Fabric) (i : Nat) (g : Fabric → Fabric)
+    (hg : ∀ f ∈ fabrics, f.fabIdx = i → (g f).fabIdx = i) :
+    (fabricsUpdate fabrics i g).map (·.fabIdx) = fabrics.map (·.fabIdx) := by
+  induction fabrics with
+  | nil => rfl
+  | cons x xs ih =>
+    unfold fabricsUpdate
+    by_cases hx : x.fabIdx = i
+    · have : (x.fabIdx == i) = true := by simp [hx]
+      simp only [this, if_true, List.map_cons]
+      rw [hg x (by simp) hx, hx]
+    · have : (x.fabIdx == i) = false := by simp [hx]
+      simp only [this, Bool.false_eq_true, if_false, List.map_cons]
+      rw [ih (fun f hf => hg f (List.mem_cons_of_mem _ hf))]
+
+theorem mem_fabricsUpdate {fabrics : List Fabric} {i : Nat} {g : Fabric → Fabric} {f' : Fabric}
+    (h : f' ∈ fabricsUpdate fabrics i g) : f' ∈ fabrics ∨ ∃ f ∈ fabrics, f.fabIdx = i ∧ f' = g f := by
+  induction fabrics with
+  | nil => cases h
+  | cons x xs ih =>
+    unfold fabricsUpdate at h
+    by_cases hx : x.fabIdx = i
+    · have : (x.fabIdx == i) = true := by simp [hx]
+      simp only [this, if_true, List.mem_cons] at h
+      rcases h with rfl | h
+      · exact Or.inr ⟨x, by simp, hx, rfl⟩
+      · exact Or.inl (List.mem_cons_of_mem _ h)
+    · have : (x.fabIdx == i) = false := by simp [hx]
+      simp only [this, Bool.false_eq_true, if_false, List.mem_cons] at h
+      rcases h with rfl | h
+      · exact Or.inl (by simp)
+      · rcases ih h with h | ⟨f, hf, hi, he⟩
+        · exact Or.inl (List.mem_cons_of_mem _ h)
+        · exact Or.inr ⟨f, List.mem_cons_of_mem _ hf, hi, he⟩
+
+/-- replacing the fabric with index `i` by a well-formed fabric with the same index -/
+theorem wf_fabricsUpdate_const {fabrics : List Fabric} {i : Nat} {f' : Fabric} (hwf : WF fabrics)
+    (hi : f'.fabIdx = i) (hst : ∀ e ∈ f'.acl, e.fabIdx = some f'.fabIdx)
+    (hgd : (f'.groups.map (·.groupId)).Nodup) : WF (fabricsUpdate fabrics i (fun _ => f')) := by
+  refine ⟨?_, ?_, ?_⟩
+  · rw [fabricsUpdate_map fabrics i _ (fun _ _ _ => hi)]; exact hwf.distinct
+  · intro f hf
+    rcases mem_fabricsUpdate hf with h | ⟨_, _, _, rfl⟩
+    · exact hwf.stamped f h
+    · exact hst
+  · intro f hf
+    rcases mem_fabricsUpdate hf with h | ⟨_, _, _, rfl⟩
+    · exact hwf.groupsDistinct f h
+    · exact hgd
+
+theorem aclAdd_some {f f' : Fabric} {e : Entry} {i : Nat} (h : f.aclAdd e = some (f', i)) :
+    f'.fabIdx = f.fabIdx ∧ f'.groups = f.groups ∧ f'.acl = f.acl ++ [{ e with fabIdx := some f.fabIdx }] := by
+  unfold Fabric.aclAdd at h
+  split at h
+  · cases h
+  · split at h
+    · injection h with h; injection h with h1 h2
+      subst h1; exact ⟨rfl, rfl, rfl⟩
+    · cases h
+
+theorem wf_fabricsAclAdd {fabrics fabrics' : List Fabric} {fab n : Nat} {e : Entry} (hwf : WF fabrics)
+    (h : fabricsAclAdd fabrics fab e = some (fabrics', n)) : WF fabrics' := by
+  unfold fabricsAclAdd at h
+  cases hg : fabricsGet fabrics fab with
+  | none => simp [hg] at h
+  | some f =>
+    obtain ⟨hf, hi⟩ := fabricsGet_some_mem hg
+    simp only [hg] at h
+    cases ha : f.aclAdd e with
+    | none => simp [ha] at h
+    | some r =>
+      obtain ⟨f', i⟩ := r
+      simp only [ha] at h
+      injection h with h; injection h with h1 h2
+      subst h1
+      obtain ⟨a1, a2, a3⟩ := aclAdd_some ha
+      apply wf_fabricsUpdate_const hwf (a1.trans hi)
+      · intro e' he'
+        rw [a3] at he'
+        rcases List.mem_append.mp he' with he' | he'
+        · rw [a1]; exact hwf.stamped f hf e' he'
+        · simp only [List.mem_singleton] at he'; subst he'; rw [a1]
+      · rw [a2]; exact hwf.groupsDistinct f hf
+
+/-- entries added through `acl_add` keep the privileges canonical if the new one is -/
+theorem canonical_fabricsAclAdd {fabrics fabrics' : List Fabric} {fab n : Nat} {e : Entry}
+    (hc : CanonicalPrivs fabrics) (hp : ∃ p : Priv, e.privilege = p.bits)
+    (h : fabricsAclAdd fabrics fab e = some (fabrics', n)) : CanonicalPrivs fabrics' := by
+  unfold fabricsAclAdd at h
+  cases hg : fabricsGet fabrics fab with
+  | none => simp [hg] at h
+  | some f =>
+    obtain ⟨hf, hi⟩ := fabricsGet_some_mem hg
+    simp only [hg] at h
+    cases ha : f.aclAdd e with
+    | none => simp [ha] at h
+    | some r =>
+      obtain ⟨f', i⟩ := r
+      simp only [ha] at h
+      injection h with h; injection h with h1 h2
+      subst h1
+      obtain ⟨a1, a2, a3⟩ := aclAdd_some ha
+      intro f'' hf'' e' he'
+      rcases mem_fabricsUpdate hf'' with h | ⟨_, _, _, rfl⟩
+      · exact hc f'' h e' he'
+      · rw [a3] at he'
+        rcases List.mem_append.mp he' with he' | he'
+        · exact hc f hf e' he'
+        · simp only [List.mem_singleton] at he'; subst he'; exact hp
+
+
+theorem groupsAddUpd_map {gs gs' : List GroupMapping} {ep gid : Nat}
+    (h : groupsAddUpd gs ep gid = some gs') : gs'.map (·.groupId) = gs.map (·.groupId) := by
+  induction gs generalizing gs' with
+  | nil => unfold groupsAddUpd at h; injection h with h; subst h; rfl
+  | cons x xs ih =>
+    unfold groupsAddUpd at h
+    split at h
+    · split at h
+      · injection h with h; subst h; rfl
+      · split at h
+        · injection h with h; subst h; rfl
+        · cases h
+    · cases hr : groupsAddUpd xs ep gid with
+      | none => simp [hr] at h
+      | some r =>
+        simp only [hr, Option.map_some, Option.some.injEq] at h
+        subst h
+        simp [ih hr]
+
+theorem groupsAdd_nodup {gs gs' : List GroupMapping} {ep gid : Nat}
+    (hd : (gs.map (·.groupId)).Nodup) (h : groupsAdd gs ep gid = some gs') :
+    (gs'.map (·.groupId)).Nodup := by
+  unfold groupsAdd at h
+  cases hf : gs.find? (fun e => e.groupId == gid) with
+  | some g =>
+    simp only [hf] at h
+    rw [groupsAddUpd_map h]; exact hd
+  | none =>
+    simp only [hf] at h
+    split at h
+    · split at h
+      · injection h with h; subst h
+        rw [List.map_append, List.nodup_append]
+        refine ⟨hd, by simp, ?_⟩
+        intro a ha b hb
+        simp only [List.map_cons, List.map_nil, List.mem_singleton] at hb
+        obtain ⟨g, hg, rfl⟩ := List.mem_map.mp ha
+        rw [List.find?_eq_none] at hf
+        have := hf g hg
+        rw [hb]; simpa using this
+      · cases h
+    · cases h
+
+theorem groupsSetHasAux_map (gs : List GroupMapping) (gid : Nat) (v : Bool) :
+    (groupsSetHasAux gs gid v).1.map (·.groupId) = gs.map (·.groupId) := by
+  induction gs with
+  | nil => rfl
+  | cons x xs ih =>
+    unfold groupsSetHasAux
+    split
+    · rfl
+    · simp [ih]
+
+theorem wf_fabricsGroupAdd {fabrics fabrics' : List Fabric} {fab ep gid : Nat} (hwf : WF fabrics)
+    (h : fabricsGroupAdd fabrics fab ep gid = some fabrics') : WF fabrics' := by
+  unfold fabricsGroupAdd at h
+  cases hg : fabricsGet fabrics fab with
+  | none => simp [hg] at h
+  | some f =>
+    obtain ⟨hf, hi⟩ := fabricsGet_some_mem hg
+    simp only [hg] at h
+    cases ha : groupsAdd f.groups ep gid with
+    | none => simp [ha] at h
+    | some gs =>
+      simp only [ha] at h
+      injection h with h; subst h
+      exact wf_fabricsUpdate_const hwf hi (hwf.stamped f hf) (groupsAdd_nodup (hwf.groupsDistinct f hf) ha)
+
+theorem wf_fabricsSetHasAux {fabrics fabrics' : List Fabric} {fab gid : Nat} {v ch : Bool} (hwf : WF fabrics)
+    (h : fabricsSetHasAux fabrics fab gid v = some (fabrics', ch)) : WF fabrics' := by
+  unfold fabricsSetHasAux at h
+  cases hg : fabricsGet fabrics fab with
+  | none => simp [hg] at h
+  | some f =>
+    obtain ⟨hf, hi⟩ := fabricsGet_some_mem hg
+    simp only [hg] at h
+    have hm := groupsSetHasAux_map f.groups gid v
+    cases hr : groupsSetHasAux f.groups gid v with
+    | mk gs c =>
+      rw [hr] at h hm
+      cases c with
+      | none => simp at h
+      | some c =>
+        simp only [Option.some.injEq, Prod.mk.injEq] at h
+        obtain ⟨h1, _⟩ := h
+        subst h1
+        refine wf_fabricsUpdate_const hwf hi (hwf.stamped f hf) ?_
+        simp only at hm ⊢
+        rw [hm]; exact hwf.groupsDistinct f hf
+
+
+/-! ## non-vacuity: the hypotheses are satisfiable, both answers occur, and each hypothesis matters -/
+
+/-- tag identifier 1, version `v` -/
+def tag1 (v : Nat) : Nat := Consts.nocCatSubjectPrefix ||| (1 <<< 16 ||| v)
+
+/-- fabric 1: Administer for holders of tag 1 version ≥ 2 on everything; Operate for group 7 on
+endpoint 1; fabric 2: View for node 5 on cluster 6. Group 7 of fabric 1 has endpoint 1. -/
+def cfg : List Fabric :=
+  [ { fabIdx := 1,
+      acl := [ { privilege := PRIV_ADMIN, authMode := .case, subjects := some [tag1 2], targets := none, fabIdx := some 1 },
+               { privilege := PRIV_OPERATE, authMode := .group, subjects := some [7],
+                 targets := some [{ endpoint := some 1, cluster := none, deviceType := none }], fabIdx := some 1 } ],
+      groups := [ { groupId := 7, endpoints := [1], hasAuxAcl := some true } ] },
+    { fabIdx := 2,
+      acl := [ { privilege := PRIV_VIEW, authMode := .case, subjects := some [5],
+                 targets := some [{ endpoint := none, cluster := some 6, deviceType := none }], fabIdx := some 2 } ],
+      groups := [] } ]
+
+def mkReq (fab : Nat) (mode : Option AuthMode) (subjects : List Nat) (ep cl op perms : Nat) : AccessReq :=
+  { accessor := { fabIdx := fab, auxAclEnabled := false, subjects := subjects, authMode := mode },
+    object := { path := { endpoint := some ep, cluster := some cl, leaf := some 0 }, targetPerms := some perms,
+                operation := op, deviceTypes := [] } }
+
+theorem cfg_wf : WF cfg := ⟨by decide, by decide, by decide⟩
+theorem cfg_canonical : CanonicalPrivs cfg := by
+  intro f hf e he
+  simp only [cfg, List.mem_cons, List.not_mem_nil, or_false] at hf
+  rcases hf with rfl | rfl <;> simp only [List.mem_cons, List.not_mem_nil, or_false] at he
+  · rcases he with rfl | rfl
+    · exact ⟨.administer, rfl⟩
+    · exact ⟨.operate, rfl⟩
+  · subst he; exact ⟨.view, rfl⟩
+
+/-- a write of an `RWVA` attribute (needs Administer) by a holder of tag 1 version 3: granted … -/
+example : allow cfg (mkReq 1 (some .case) [9, tag1 3, 0, 0] 0 40 WRITE 57) = true := by decide
+/-- … and so says the specification, through the theorem -/
+example : Granted cfg (mkReq 1 (some .case) [9, tag1 3, 0, 0] 0 40 WRITE 57) :=
+  (allow_iff_granted cfg _ cfg_wf cfg_canonical ⟨.write, rfl⟩).mp (by decide)
+/-- version 1 < 2: denied -/
+example : allow cfg (mkReq 1 (some .case) [9, tag1 1, 0, 0] 0 40 WRITE 57) = false := by decide
+/-- the same accessor on fabric 2 (other fabric's entry does not help): denied -/
+example : allow cfg (mkReq 2 (some .case) [9, tag1 3, 0, 0] 0 40 WRITE 57) = false := by decide
+/-- node 5 of fabric 2 reads an `RV` attribute of cluster 6: granted; writes `RWVM`: denied -/
+example : allow cfg (mkReq 2 (some .case) [5, 0, 0, 0] 3 6 READ 17) = true := by decide
+example : allow cfg (mkReq 2 (some .case) [5, 0, 0, 0] 3 6 WRITE 53) = false := by decide
+/-- missing fabric 3, fabric 0: denied; PASE: granted -/
+example : allow cfg (mkReq 3 (some .case) [5, 0, 0, 0] 3 6 READ 17) = false := by decide
+example : allow cfg (mkReq 0 (some .case) [5, 0, 0, 0] 3 6 READ 17) = false := by decide
+example : allow cfg (mkReq 0 (some .pase) [1, 0, 0, 0] 3 6 READ 17) = true := by decide
+/-- hypotheses of `cat_version_monotone` are satisfiable -/
+example : IsCat (tag1 1) ∧ IsCat (tag1 3) ∧ catId (tag1 1) = catId (tag1 3) ∧
+    catVersion (tag1 1) ≤ catVersion (tag1 3) := by decide
+/-- group 7 reaches endpoint 1 and not endpoint 2 -/
+example : isEndpointAccessible cfg { fabIdx := 1, auxAclEnabled := false, subjects := [7, 0, 0, 0], authMode := some .group } 1 = true := by decide
+example : isEndpointAccessible cfg { fabIdx := 1, auxAclEnabled := false, subjects := [7, 0, 0, 0], authMode := some .group } 2 = false := by decide
+/-- `missing_fabric_denied`, `other_fabric_never_grants`: hypotheses satisfiable -/
+example : ∀ f ∈ cfg, f.fabIdx ≠ (mkReq 3 (some .case) [5, 0, 0, 0] 3 6 READ 17).accessor.fabIdx := by decide
+
+/-- `CanonicalPrivs` matters: an entry built through the Rust API with the bare `A` bit (no
+privilege of the cluster) is accepted by the code for an `RWVA` read, which the specification, which
+knows only the five privileges, does not grant. -/
+def odd : List Fabric :=
+  [ { fabIdx := 1, acl := [ { privilege := Consts.privA, authMode := .case, subjects := none, targets := none, fabIdx := some 1 } ], groups := [] } ]
+example : allow odd (mkReq 1 (some .case) [5, 0, 0, 0] 0 6 READ 57) = true ∧
+    grantedB odd (mkReq 1 (some .case) [5, 0, 0, 0] 0 6 READ 57) = false := by decide
+/-- `ReadOrWrite` matters: the operation value `READ | WRITE` is not an operation of the property -/
+example : allow cfg (mkReq 2 (some .case) [5, 0, 0, 0] 3 6 (READ ||| WRITE) 53) = true ∧
+    grantedB cfg (mkReq 2 (some .case) [5, 0, 0, 0] 3 6 (READ ||| WRITE) 53) = false := by decide
+/-- `WF.stamped` matters: an entry sitting in fabric 1's list but stamped 2 is ignored by the code -/
+def unstamped : List Fabric :=
+  [ { fabIdx := 1, acl := [ { privilege := PRIV_ADMIN, authMode := .case, subjects := none, targets := none, fabIdx := some 2 } ], groups := [] } ]
+example : allow unstamped (mkReq 1 (some .case) [5, 0, 0, 0] 0 6 READ 17) = false ∧
+    grantedB unstamped (mkReq 1 (some .case) [5, 0, 0, 0] 0 6 READ 17) = true := by decide
+
+/-- `AUXILIARY` feature on: group 7 may invoke an Operate command on its endpoint 1 through the
+synthesised entry even without a matching stored entry (cluster 99 endpoint 1 is covered by the
+stored entry too, so use a configuration without it) -/
+def cfgAux : List Fabric :=
+  [ { fabIdx := 1, acl := [ { privilege := PRIV_OPERATE, authMode := .group, subjects := none, targets := none, fabIdx := some 1 } ],
+      groups := [ { groupId := 7, endpoints := [0, 1], hasAuxAcl := some true } ] } ]
+def auxReq (aux : Bool) (ep : Nat) : AccessReq :=
+  { accessor := { fabIdx := 1, auxAclEnabled := aux, subjects := [7, 0, 0, 0], authMode := some .group },
+    object := { path := { endpoint := some ep, cluster := some 6, leaf := some 0 }, targetPerms := some 46,
+                operation := WRITE, deviceTypes := [] } }
+/-- feature off: the wildcard Group entry covers the root endpoint; feature on: it does not, but the
+group's auxiliary entry (root endpoint is a member) does; a non-member endpoint 2 is covered by
+the wildcard entry only -/
+example : allow cfgAux (auxReq false 0) = true ∧ allow cfgAux (auxReq true 0) = true ∧
+    fabricsAllow cfgAux (auxReq true 0) true = false ∧ allow cfgAux (auxReq true 2) = true := by decide
+example : Granted cfgAux (auxReq true 0) :=
+  (allow_iff_granted cfgAux _ ⟨by decide, by decide, by decide⟩
+    (by intro f hf e he
+        simp only [cfgAux, List.mem_cons, List.not_mem_nil, or_false] at hf
+        subst hf
+        simp only [List.mem_cons, List.not_mem_nil, or_false] at he
+        subst he; exact ⟨.operate, rfl⟩) ⟨.write, rfl⟩).mp (by decide)
+
+end C05
